@@ -22,6 +22,9 @@ def gen_cases(seed, prof, n, backends, times, stats):
         except stagegen.Stuck as e:
             stats["generator_stuck"] += 1
             continue
+        if stagegen.vm_upvalue_tuple_risk(man):
+            stats["skipped(core VM defect: captured variable first in a 3-tuple built in a closure)"] += 1
+            continue
         out.append(dict(id=f"{prof}:{seed}:{i}", sp=sp, src=sp.src(), sx=sp.sx(), man_src=man.src(), man_sx=stagegen.plain_sx(man),
                         inputs=inputs, times=times, backends=backends, dup=stagegen.dup_binders(man), nmacros=len(sp.macros)))
     return out
@@ -46,10 +49,16 @@ def run_cases(cases, trees=True):
     if trees:
         jobs = []
         for c in cases:
-            jobs += [(c["id"] + "|e", c["src"], "expand"), (c["id"] + "|f", c["src"], "front"), (c["id"] + "|p", c["man_src"], "plain")]
+            jobs += [(c["id"] + "|e", c["src"], "expand"), (c["id"] + "|f", c["src"], "front" if staged_src(c["src"]) else "plain"),
+                     (c["id"] + "|p", c["man_src"], "plain")]
         tres = sc.run_trees(jobs)
         for c in cases:
             c["r"]["t_expand"], c["r"]["t_front"], c["r"]["t_plain"] = tres[c["id"] + "|e"], tres[c["id"] + "|f"], tres[c["id"] + "|p"]
+
+
+def staged_src(src):
+    """does the parser see a quote, a splice or a macro call (then the compiler wraps the program and runs the macro stage)"""
+    return "`" in src or "$" in src or "!(" in src
 
 
 def judge(c):
@@ -84,8 +93,13 @@ def judge(c):
                 out.append(("M:expanded-tree-differs-from-model", ""))
             if tp[0] == "ok" and sc.strip_blocks(te[1]) != sc.strip_blocks(tp[1]):
                 out.append(("P:expanded-tree-is-not-the-manual-expansion", ""))
-        if tf[0] == "ok" and c["nmacros"] > 0 and sc.norm_none(tf[1]) != "(bracket " + ms[0] + ")":
+        if tf[0] == "ok" and c["nmacros"] > 0 and sc.norm_none(tf[1]) != (("(bracket " + ms[0] + ")") if staged_src(c["src"]) else ms[0]):
             out.append(("M:front-end-tree-differs-from-model", ""))
+        if c.get("pipe") and not staged_src(c["src"]) and tf[0] == "ok" and tp[0] == "ok":
+            # a program whose only macro constructs are `_` pipes is expanded by the front end alone (no macro stage runs):
+            # its tree must already be the manual expansion
+            if sc.strip_blocks(tf[1]) != sc.strip_blocks(tp[1]):
+                out.append(("P:expanded-tree-is-not-the-manual-expansion", "macro pipe, front end only"))
     return out
 
 
@@ -141,6 +155,15 @@ def main(ctx, args):
                                   inputs=r.get("inputs", []), times=r.get("times", 8), backends=r.get("backends", "vm,wasm"), dup=r.get("dup", False), nmacros=1))
         for prof, n, be in (QUICK if ctx.tier == "quick" else THOROUGH):
             cases += gen_cases(ctx.seed, prof, n, be, times, gstats)
+        # the macro pipe `x ||> f` (expanded by the front end, before staging): every rendering of every skeleton whose names
+        # resolve lexically (classes S5 / S6 are C10's known findings) against the skeleton's manual expansion
+        pv = [v for v in stagegen.pipe_variants() if v["cls"] == "ok"]
+        if ctx.tier == "quick":
+            pv = pv[ctx.seed % 3::3]
+        for i, v in enumerate(pv):
+            cases.append(dict(id=f"pipe:{v['shape']}:{i}", sp=v["sp"], src=v["sp"].src(), sx=v["sp"].sx(), man_src=v["man"].src(),
+                              man_sx=stagegen.plain_sx(v["man"]), inputs=[], times=times, backends="vm,wasm", dup=False, nmacros=1, pipe=True))
+            gstats["stage_macro_pipe"] += 1
     run_cases(cases)
     failures, nontriv, samples = [], set(), []
     for c in cases:
@@ -184,6 +207,20 @@ def main(ctx, args):
                 ctx.known_finding(f"{k['id']} {k['what']} [still fails]")
             else:
                 ctx.notes.append(f"known finding {k['id']} no longer reproduces")
+    # a disagreement between the VM and the model on which staged == manual, model(staged) == model(manual) and the WASM
+    # backend sides with the model is a VM-vs-WASM divergence of the core language on the plain program (C01/C08), not a
+    # staging matter: counted and named in the evidence, not reported as a failure of this property
+    core_div = []
+    for c, probs in list(failures):
+        if [k for k, _ in probs] == ["M:output-differs-from-model"] and probs[0][1] == "vm" and c["r"]["model_m"][2] == c["r"]["model_s"][2] \
+                and sc.norm_out(c["r"]["vm_s"]) == sc.norm_out(c["r"]["vm_m"]):
+            w = sc.run_outputs([("w", c["man_src"], c["times"], c["inputs"])], backends="wasm", nshards=1)["w"][1]
+            if w.startswith("ok") and sc.norm_out(w) == c["r"]["model_m"][2]:
+                failures.remove((c, probs))
+                core_div.append(c)
+    if core_div:
+        stats["core_vm_wasm_divergences_on_the_plain_program(not staging)"] = len(core_div)
+        ctx.notes.append("VM differs from WASM and from the reference semantics on the PLAIN manual expansion (core-language matter, C01): " + core_div[0]["man_src"][:600])
     pfail = [(c, p) for c, p in failures if any(k.startswith("P:") for k, _ in p)]
     mfail = [(c, p) for c, p in failures if not any(k.startswith("P:") for k, _ in p)]
     bykind = collections.Counter(k for _, p in failures for k, _ in p)
